@@ -16,6 +16,21 @@ to siblings that have the wrapped callable's signature; in addition a drawn shar
 has its lambda objects decorated after import (`lwrap`: __wrapped__ / update_wrapper / a two-link
 __wrapped__ chain / __signature__) with a callable that has the signature of another lambda of the
 same line.
+
+Lambda signatures are also drawn from per-statement *signature families* (G.family_sig): the lambdas
+of one statement take their parameter names from one small pool and give every name a drawn kind
+(positional-only / positional-or-keyword / *varargs / keyword-only / **kwargs); later lambdas of the
+statement are drawn variants of earlier ones - two names exchanged between their slots (equal name
+sets, roles permuted: "lambda *items, sep: ..., lambda *sep, items: ..."), one name replaced, a twin,
+or a fresh draw from the pool.
+
+History dimension (_draw_history / _run_history): for a share of the file-backed modules the file is
+written and imported in one or two EARLIER versions (the generated text with other lambda tags and/or
+lines inserted in front, or an unrelated generated module), objects of those versions are resolved
+(oracle applied) or the file's lines are merely cached, then the file is rewritten under the same
+path - other size and/or other mtime (os.utime), i.e. visibly for linecache.checkcache - and the
+module is reloaded (importlib.reload, or re-import after removal from sys.modules).  The objects of
+the last version are checked with the ordinary oracle, each in the state right after the reload.
 """
 import ast
 import collections
@@ -25,6 +40,7 @@ import inspect
 import io
 import linecache
 import os
+import re
 import sys
 import tempfile
 import time
@@ -49,9 +65,9 @@ ID = 'C15'
 LEVEL = 'exploration'
 TECHNIQUE = ('property-based layout fuzzing: a constructive Hypothesis grammar renders module texts (indent unit, nesting '
              'context, comments, backslash/bracket continuations, every string kind, decorators, multi-line signatures, lambda '
-             'arrangements, PEP 701 f-string fields incl. nested f-strings, lambdas wrapping / wrapped by other callables) to real files / zip archives that are imported; lambda objects of a drawn share of modules additionally receive __wrapped__ / __signature__ attributes pointing at the signature of a sibling; oracle = structural comparison (ast.dump) of '
+             'arrangements incl. signature families = equal parameter-name sets with the parameter kinds permuted between the lambdas of a line, PEP 701 f-string fields incl. nested f-strings, lambdas wrapping / wrapped by other callables) to real files / zip archives that are imported; lambda objects of a drawn share of modules additionally receive __wrapped__ / __signature__ attributes pointing at the signature of a sibling; oracle = structural comparison (ast.dump) of '
              'parser.parse_entity against the node of an independent ast.parse of the whole file, located through the code '
-             'object (unique co_name / unique integer tag in co_consts); own line-level ddmin shrinker')
+             'object (unique co_name / unique integer tag in co_consts); history dimension: a share of the modules is imported in earlier versions, the file rewritten under the same path (other size and/or mtime) and the module reloaded before the objects of the last version are checked; own line-level ddmin shrinker')
 RULE = ('one evaluation = one function or lambda object of a generated module handed to parser.parse_entity with the future '
         'features the transpiler would pass. Objects are the real ones created by importing the module (module / class '
         'attributes, containers, defaults, __wrapped__ chains, functools.wraps wrappers; lambda objects optionally decorated after creation the way a run-time decorator would: functools.update_wrapper / __wrapped__ / __signature__ pointing at a fresh function made from the code of another lambda of the same line) and, for definitions only reachable by '
@@ -69,6 +85,8 @@ ASSUMPTIONS = [
     'shapes of confirmed defects are excluded by construction (coverage.classes excluded:*), their minimal inputs are replayed from replays/C15',
     'attributes set on a lambda object after its creation (__wrapped__, the names copied by functools.update_wrapper, __signature__) do not change which expression created it: the expected node stays the one owning the tag in __code__.co_consts. The decoration target is always a fresh function built from a sibling lambda\'s code object (no __wrapped__ cycles)',
     'f-string field shapes follow PEP 701 and are generated on Python >= 3.12 only (older interpreters get the flat fields); names inside fields of code that the import executes are constants',
+    'history cases: every rewrite of a file is observable by linecache.checkcache - the (size, mtime) pair of a version differs from that of every earlier version of the path (mtime set with os.utime, no sleeping); bytecode caches are not written (PYTHONDONTWRITEBYTECODE); function objects left in the module namespace by an earlier version (importlib.reload keeps them) are not evaluated - their source no longer exists; before each object of the last version the linecache entry is put back to what it was right after the reload, so every object is resolved as the first one after the edit',
+    'excluded (EXCL, counted under excluded:*): a self-documenting f-string field spanning lines that follows a backslash-newline within its statement (suspected defect of the latest /repo fix ef7e5e5: a compensating empty line lands inside the field and thus inside the string value)',
     'three suspected-defect shapes found by the widened generator are excluded behind named flags (see EXCL) and counted under excluded:*: __signature__ set on a lambda, a def-made wrapper renamed to <lambda> by functools.wraps(lambda), a backslash continuation between the braces of an f-string field',
 ]
 LEVEL_TEXT = ('Randomised exploration of the layout space; every generated definition is compared structurally with the interpreter\'s '
@@ -91,7 +109,15 @@ LEVEL_NOTE = ('Trusted: ast.parse of the whole file as the reference tree, code-
 #   field of a triple-quoted f-string (PEP 701) inside an indented definition shifts dedent_block's
 #   line-by-line matching by one line (tokenize.untokenize drops the continuation) -> IndentationError;
 #   suspected defect, reported; the field is generated with a plain newline instead.
-EXCL = ()   # FC15h-j (the three shapes once excluded here) are repaired in /repo; the flags stay available for scratch runs
+# no_multiline_selfdoc_field_after_backslash_continuation: a replacement field of the self-documenting
+#   form spanning lines ('{' newline 'x=' newline '}', whose VALUE contains the field's source text) in a
+#   statement that has a backslash continuation before the field: parser._unfold_continuations makes up
+#   for the folded row with an empty line placed after the next row that is not part of a string token -
+#   here a row inside the field - and the empty line becomes part of the string value (regression of
+#   /repo ef7e5e5); suspected defect, reported; the '=' is dropped from such a field while the flag is active.
+#   Minimal input: replays/C15/suspected/FC15l_blank_line_inserted_into_selfdoc_fstring_field.json
+EXCL = ()   # FC15l (no_multiline_selfdoc_field_after_backslash_continuation) is repaired in /repo and generated again   # FC15h-j (three shapes once excluded here) are repaired in /repo; their flags stay available for scratch runs
+_ML_SELFDOC_FIELD = re.compile(r'\{\n([^\n{}]*)=\n\}')
 
 # decorations applied to lambda objects that share their line with a lambda of another signature:
 #   update_wrapper  functools.update_wrapper(lam, <callable with the sibling's signature>)
@@ -133,6 +159,17 @@ STR_PREFIX = ('', '', '', 'r', 'b', 'rb', 'f', 'f', 'rf', 'u', 'R', 'B', 'F', 'R
 
 LAM_SIGS = ('', 'x', 'x', 'y', 'x, y', 'x=1', '*a', '**k', 'x, *, k', 'x, *a, k=2, **kw', 'self', 'x, y=2')
 LAM_SIGS_POSONLY = ('x, /', 'x, /, y', 'x, y, /', 'x, /, *, k')
+
+# Signature families: the lambdas of one statement draw their parameter NAMES from one small pool and
+# give every name a drawn KIND (positional-only, positional-or-keyword, *varargs, keyword-only,
+# **kwargs), so that lambdas sharing a line have equal name sets with the roles permuted
+# ("lambda *items, sep: ..., lambda *sep, items: ..."), equal roles with one name replaced, equal
+# signatures (twins) or unrelated draws from the same pool.
+SIG_POOLS = (('a', 'k'), ('a', 'k'), ('x', 'y'), ('items', 'sep'), ('x', 'a', 'k'), ('x', 'a', 'k'), ('x', 'y', 'a', 'kw'),
+             ('self', 'args', 'kwargs'), ('x', 'a', 'k', 'y', 'kw'))
+SIG_KINDS = (('po', 1), ('p', 3), ('va', 3), ('ko', 3), ('vk', 2))
+SIG_SPARE_NAMES = ('b', 'm', 'rest', 'opts')
+SIG_VARIANTS = (('swap', 45), ('rename', 15), ('same', 10), ('fresh', 30))
 
 PY312 = sys.version_info >= (3, 12)  # PEP 701: nested quotes, backslashes, comments and newlines inside replacement fields
 
@@ -211,6 +248,28 @@ SAFE_SIMPLE = (
 
 
 _INTS = {}
+
+
+def _has_continuation(text, upto):
+  """True when a row of the statement `text` that begins before offset `upto` ends in a backslash
+  which is not part of a string literal or comment, i.e. a line continuation (also one inside a
+  replacement field).  On doubt (text that cannot be tokenised) True."""
+  head = text[:upto]
+  if '\\\n' not in head:
+    return False
+  covered = collections.defaultdict(list)
+  try:
+    for t in tokenize.generate_tokens(io.StringIO(text).readline):
+      if t.type in (tokenize.STRING, tokenize.COMMENT, getattr(tokenize, 'FSTRING_MIDDLE', -1)):
+        (r0, c0), (r1, c1) = t.start, t.end
+        for r in range(r0, r1 + 1):
+          covered[r].append((c0 if r == r0 else 0, c1 if r == r1 else 10 ** 9))
+  except (tokenize.TokenError, SyntaxError, IndentationError):
+    return True
+  for r, line in enumerate(head.split('\n')[:-1], 1):
+    if line.endswith('\\') and not any(a <= len(line) - 1 < b for a, b in covered.get(r, ())):
+      return True
+  return False
 
 
 class G(object):
@@ -510,6 +569,8 @@ class G(object):
     forced = sig is not None
     if sig is not None:
       pass
+    elif self.pct(70 if grp.get('fam') else 14):
+      sig = self.family_sig(grp, (not grp.get('solo')) or depth > 0 or grp['n'] > 1)
     elif self.pct(12):
       sharing = (not grp.get('solo')) or depth > 0 or grp['n'] > 1
       if sharing and self.excluded('no_posonly_lambda_sharing_line'):
@@ -564,6 +625,83 @@ class G(object):
     elif self.pct(6):
       sep = ' \\\n' + ci
     return head + sep + body
+
+  def family_sig(self, grp, sharing):
+    """A signature of the statement's signature family: [(name, kind)] slots over the statement's
+    name pool.  The first lambda of a statement draws names and kinds freely; a later one is a drawn
+    variant of an earlier one: names exchanged between two slots (roles permuted, equal name set),
+    one name replaced (equal roles), identical (a twin), or a fresh draw from the same pool."""
+    fam = grp.get('fam')
+    variant = 'first'
+    if fam is None:
+      fam = grp['fam'] = {'pool': self.pick(SIG_POOLS), 'sigs': []}
+      self.meta['gen:lambda_sig_family:statements'] += 1
+    if fam['sigs']:
+      variant = self.wpick(SIG_VARIANTS)
+    slots = None
+    if variant in ('swap', 'rename', 'same'):
+      base = list(self.pick(fam['sigs']))
+      if variant == 'swap' and len(base) >= 2:
+        i = self.i(0, len(base) - 1)
+        j = (i + self.i(1, len(base) - 1)) % len(base)
+        (ni, ki), (nj, kj) = base[i], base[j]
+        base[i], base[j] = (nj, ki), (ni, kj)
+        slots = base
+        self.meta['gen:lambda_sig_family:swap:' + '<->'.join(sorted((ki, kj)))] += 1
+      elif variant == 'rename' and base:
+        i = self.i(0, len(base) - 1)
+        spare = [n for n in SIG_SPARE_NAMES + fam['pool'] if n not in [x[0] for x in base]]
+        base[i] = (self.pick(spare), base[i][1])
+        slots = base
+      elif variant == 'same' and base:
+        slots = base
+      else:
+        variant = 'fresh'
+    if slots is None:
+      pool = list(fam['pool'])
+      n = min(len(pool), self.pick((1, 2, 2, 2, 3, 3, 4)))
+      names = []
+      for _ in range(n):
+        names.append(pool.pop(self.i(0, len(pool) - 1)))
+      slots = []
+      for nm in names:
+        have = [k for _, k in slots]
+        table = [(k, w) for k, w in SIG_KINDS if not (k in ('va', 'vk') and k in have)]
+        slots.append((nm, self.wpick(table)))
+    if sharing and any(k == 'po' for _, k in slots) and self.excluded('no_posonly_lambda_sharing_line'):
+      slots = [(nm, 'p' if k == 'po' else k) for nm, k in slots]
+    if any(k == 'po' for _, k in slots):
+      grp['posonly'] = True
+      self.meta['gen:posonly_lambda' + ('_sharing_line' if sharing else '_alone')] += 1
+    fam['sigs'].append(tuple(slots))
+    self.meta['gen:lambda_sig_family:lambdas'] += 1
+    self.meta['gen:lambda_sig_family:variant=' + variant] += 1
+    kinds = set(k for _, k in slots)
+    if 'va' in kinds and 'ko' in kinds:
+      self.meta['gen:lambda_sig_family:varargs+kwonly'] += 1
+    return self.sig_text(slots)
+
+  def sig_text(self, slots):
+    """Renders [(name, kind)] slots in the order Python requires; defaults are drawn constants."""
+    by = collections.defaultdict(list)
+    for nm, k in slots:
+      by[k].append(nm)
+    pos = [(nm, 'po') for nm in by['po']] + [(nm, 'p') for nm in by['p']]
+    first_default = self.i(0, len(pos)) if pos and self.pct(35) else len(pos)
+    out = []
+    for j, (nm, k) in enumerate(pos):
+      out.append(nm + ('=%d' % (j + 1) if j >= first_default else ''))
+      if k == 'po' and (j + 1 == len(pos) or pos[j + 1][1] != 'po'):
+        out.append('/')
+    if by['va']:
+      out.append('*' + by['va'][0])
+    elif by['ko']:
+      out.append('*')
+    for nm in by['ko']:
+      out.append(nm + (self.pick(('=2', '=None', ' = 0')) if self.pct(35) else ''))
+    if by['vk']:
+      out.append('**' + by['vk'][0])
+    return ', '.join(out)
 
   # -- simple statements
   def render(self, parts, ind, safe):
@@ -626,7 +764,27 @@ class G(object):
       i += 1
     return 'b' in lit[:i].lower()
 
+  def selfdoc_guard(self, text):
+    """Multi-line self-documenting f-string fields of a statement: counted, and - behind the exclusion
+    flag - written without the '=' when a backslash-newline precedes them in the statement."""
+    pos = 0
+    while True:
+      m = _ML_SELFDOC_FIELD.search(text, pos)
+      if m is None:
+        return text
+      pos = m.end()
+      if _has_continuation(text, m.start()):
+        if self.excluded('no_multiline_selfdoc_field_after_backslash_continuation'):
+          text = text[:m.end() - 3] + text[m.end() - 2:]
+          pos -= 1
+          continue
+        self.meta['gen:fstr:multiline_selfdoc_field_after_backslash_newline'] += 1
+      else:
+        self.meta['gen:fstr:multiline_selfdoc_field'] += 1
+
   def emit_stmt(self, ind, text, trailing=True):
+    if '=\n}' in text:
+      text = self.selfdoc_guard(text)
     if trailing and not text.endswith('\\') and self.pct(18):
       text += self.pick((' ', '  ', '\t')) + self.comment()
     elif trailing and self.pct(5):
@@ -976,7 +1134,63 @@ def modules(draw, cfg):
     g.meta['excluded:no_lambda___signature___attribute'] += 1
     lwrap = 'attr'
   lpick = draw(st.integers(0, 7))
-  return {'src': src, 'mode': mode, 'xwrap': xwrap, 'lwrap': lwrap, 'lpick': lpick, 'meta': dict(g.meta)}
+  history = None
+  if mode == 'file' and draw(st.integers(0, 99)) < HISTORY_PCT:
+    src, history = _draw_history(g, src, cfg)
+  return {'src': src, 'mode': mode, 'xwrap': xwrap, 'lwrap': lwrap, 'lpick': lpick, 'history': history, 'meta': dict(g.meta)}
+
+
+# ------------------------------------------------------------------------------------------------
+# history: the file of a module is rewritten with different text and the module is reloaded
+
+HISTORY_PCT = 16
+_TAG_RE = re.compile(r'(?<![\w.])(\d{4,})(?![\w.])')
+TOUCHES = (('parse', 60), ('linecache', 25), ('none', 15))
+
+
+def derive_version(src, retag, lead):
+  """Another version of a module text: every lambda tag shifted by `retag` (same size, same line
+  numbers, other constants) and `lead` lines put in front (other size, every line moved down)."""
+  if retag:
+    src = _TAG_RE.sub(lambda m: str(int(m.group(1)) + retag) if int(m.group(1)) > 1000 else m.group(1), src)
+  return ''.join(l + '\n' for l in lead) + src
+
+
+def _draw_history(g, src, cfg):
+  """Draws the earlier versions of the file (and which text is the last one).  Returns (text of the
+  last version, history record).  Versions are derived from one generated text (tags shifted and/or
+  lines inserted in front, so that stale source lines hold a different lambda at the line of every
+  lambda) or, for a share of the earlier versions, are an unrelated generated module."""
+  nver = 2 if g.pct(80) else 3
+  last = g.i(0, nver - 1)          # which version is the generated text itself
+  texts, kinds, used = [], [], set()
+  for v in range(nver):
+    if v == last:
+      t, kind = (0, ()), 'generated'
+    elif v < nver - 1 and g.pct(15):
+      g2 = G(g.draw, dict(cfg, stmts=8))
+      g2.tag = 4000 + 1000 * v
+      texts.append(g2.module())
+      kinds.append('unrelated')
+      continue
+    else:
+      retag = g.pick((0, 2000 * (v + 1), 2000 * (v + 1)))
+      nlead = g.i(0 if retag else 1, 3)
+      lead = tuple(g.pick(('', '', g.comment())) for _ in range(nlead))
+      t, kind = (retag, lead), 'derived:' + '+'.join(x for x in ('retag' if retag else '', 'shift' if lead else '') if x)
+    while (t[0], len(t[1])) in used:
+      t = (t[0], t[1] + ('',))
+      kind = 'derived:' + '+'.join(x for x in ('retag' if t[0] else '', 'shift') if x)
+    used.add((t[0], len(t[1])))
+    texts.append(derive_version(src, *t))
+    kinds.append(kind)
+  prev = [{'src': x, 'touch': g.wpick(TOUCHES)} for x in texts[:-1]]
+  hist = {'prev': prev, 'how': g.pick(('reload', 'reload', 'reimport')), 'stamp': g.pick(('mtime', 'size', 'both'))}
+  g.meta['gen:history:modules'] += 1
+  for k in kinds[:-1]:
+    g.meta['gen:history:earlier_version=' + k] += 1
+  g.meta['gen:history:last_version=' + kinds[-1]] += 1
+  return texts[-1], hist
 
 
 # ================================================================================================
@@ -1336,6 +1550,49 @@ def _sigkey(a):
   return _argnames(a), len(a.posonlyargs)
 
 
+def _kinds(a):
+  """name -> parameter kind of an ast.arguments."""
+  out = {}
+  for x in a.posonlyargs:
+    out[x.arg] = 'po'
+  for x in a.args:
+    out[x.arg] = 'p'
+  if a.vararg:
+    out[a.vararg.arg] = 'va'
+  for x in a.kwonlyargs:
+    out[x.arg] = 'ko'
+  if a.kwarg:
+    out[a.kwarg.arg] = 'vk'
+  return out
+
+
+def _kind_seq(a):
+  return (len(a.posonlyargs), len(a.args), a.vararg is not None, len(a.kwonlyargs), a.kwarg is not None)
+
+
+def _sibling_signature_feats(want, sharing, feats):
+  """How the signatures of the other lambdas spanning the line relate to the one under test."""
+  mine = _kinds(want.args)
+  if not mine:
+    return
+  for n in sharing:
+    if n is want or _sigkey(n.args) == _sigkey(want.args):
+      continue
+    theirs = _kinds(n.args)
+    if set(theirs) == set(mine):
+      # equal name sets, another assignment of names to parameter kinds (or another order)
+      feats.add('sibling_same_names_roles_permuted')
+      moved = sorted(set('<->'.join(sorted((mine[k], theirs[k]))) for k in mine if mine[k] != theirs[k]))
+      for mv in moved:
+        feats.add('sibling_role_swap=' + mv)
+      if not moved:
+        feats.add('sibling_role_swap=order_only')
+      if _kind_seq(n.args) == _kind_seq(want.args):
+        feats.add('sibling_same_names_same_kind_counts')
+    elif _kind_seq(n.args) == _kind_seq(want.args):
+      feats.add('sibling_same_kinds_other_names')
+
+
 def _mid(*args, **kwargs):
   return None
 
@@ -1402,6 +1659,9 @@ def check_lambda(ref, fn, label, fails, deco=None):
     feats.add('nested_in_lambda')
   if want.args.posonlyargs:
     feats.add('posonly')
+  if want.args.vararg is not None and want.args.kwonlyargs:
+    feats.add('varargs+kwonly')
+  _sibling_signature_feats(want, sharing, feats)
   if want.col_offset and ref.lines[line - 1][:1] in (' ', '\t'):
     feats.add('indented_line')
   feats.add('nlambdas_on_line=%d' % min(len(sharing), 4))
@@ -1534,6 +1794,101 @@ def _unload(mods, path):
       pass
 
 
+def _write_version(path, text, mtime):
+  with open(path, 'w') as f:
+    f.write(text)
+  os.utime(path, (mtime, mtime))
+
+
+def _import_version(name, path, mod, how):
+  """First import (mod is None), importlib.reload of the module object, or a fresh import after the
+  module was dropped from sys.modules.  linecache is deliberately left alone."""
+  if mod is not None and how == 'reload':
+    d = os.path.dirname(path)
+    sys.path.insert(0, d)
+    try:
+      importlib.invalidate_caches()
+      return importlib.reload(mod)
+    finally:
+      sys.path.remove(d)
+      sys.path_importer_cache.pop(d, None)
+  sys.modules.pop(name, None)
+  spec = importlib.util.spec_from_file_location(name, path)
+  m = importlib.util.module_from_spec(spec)
+  sys.modules[name] = m
+  try:
+    spec.loader.exec_module(m)
+  except BaseException:
+    sys.modules.pop(name, None)
+    raise
+  return m
+
+
+def _run_history(case, ref, fails, stats, info):
+  """The file is written, imported, (objects resolved), rewritten with the next version's text under
+  the same path - visibly for linecache.checkcache: other size and/or other mtime, set with
+  os.utime - and reloaded; the objects of the LAST version are checked with the ordinary oracle,
+  each one in the state right after the reload (stale cached lines of the previous version
+  re-installed before every object, as if it were the first one resolved)."""
+  hist = case['history']
+  _counter[0] += 1
+  base = 'vfc15_%d_%dh' % (os.getpid(), _counter[0])
+  name = base + 'a'
+  path = os.path.join(tempfile.gettempdir(), name + '.py')
+  other = harness.load_module(XMOD_SRC, name=base + 'b')
+  mods, keep, mod = [other], [], None
+  versions = list(hist['prev']) + [{'src': case['src'], 'touch': None}]
+  mtime, size, stamps = 1600000000, None, set()
+  info['history'] = {'touch': [v['touch'] for v in hist['prev']]}
+  try:
+    for i, v in enumerate(versions):
+      nsize = len(v['src'].encode('utf-8'))
+      # 'size': the mtime is kept as long as the (size, mtime) pair differs from that of every
+      # earlier version (any of them may still be the one in linecache); otherwise - and for the
+      # other stamps always - the file gets a later mtime
+      if i and (hist.get('stamp') != 'size' or (nsize, mtime) in stamps):
+        mtime += 1000 * i
+      stamps.add((nsize, mtime))
+      if i and hist.get('stamp') == 'mtime' and nsize != size:
+        info['history']['size_differs_too'] = True
+      size = nsize
+      _write_version(path, v['src'], mtime)
+      try:
+        mod = _import_version(name, path, mod, hist.get('how', 'reload'))
+      except Exception as e:  # pylint:disable=broad-except
+        info['slip'] = 'history import (version %d): %r' % (i, e)
+        return
+      if mod not in mods:
+        mods.append(mod)
+      if i == len(versions) - 1:
+        break
+      earlier = set(id(f) for f in keep)
+      keep.extend(fn for fn, _ in _real_functions(mod, path))
+      if v['touch'] == 'parse':
+        try:
+          ref_i = Ref(v['src'])
+        except SyntaxError as e:
+          info['slip'] = 'history syntax (version %d): %r' % (i, e)
+          return
+        fl, stl = [], []
+        _run_loaded({'src': v['src'], 'mode': 'file'}, ref_i, mod, other, path, fl, stl, info, skip_ids=earlier)
+        if info['slip']:
+          return
+        for rec in stl:
+          rec['old_version'] = True
+        stats.extend(stl)
+        fails.extend((b, dict(d, version=i)) for b, d in fl)
+      elif v['touch'] == 'linecache':
+        linecache.getlines(path, vars(mod))
+    snapshot = linecache.cache.get(path)
+    info['history']['stale_lines_cached'] = snapshot is not None and len(snapshot) == 4
+    _run_loaded(case, ref, mod, other, path, fails, stats, info, skip_ids=set(id(f) for f in keep),
+                linecache_entry=(snapshot,))
+  finally:
+    _unload(mods, path)
+    del keep[:]
+
+
 def run_case(case):
   """Executes the oracle on every function/lambda object of the module.
 
@@ -1545,6 +1900,9 @@ def run_case(case):
     ref = Ref(src)
   except SyntaxError as e:
     info['slip'] = 'syntax: %r' % (e,)
+    return fails, stats, info
+  if case.get('history') and case.get('mode') != 'zip':
+    _run_history(case, ref, fails, stats, info)
     return fails, stats, info
   try:
     mod, other, path = _load(case)
@@ -1558,13 +1916,15 @@ def run_case(case):
   return fails, stats, info
 
 
-def _run_loaded(case, ref, mod, other, path, fails, stats, info):
+def _run_loaded(case, ref, mod, other, path, fails, stats, info, skip_ids=(), linecache_entry=None):
   src = case['src']
   zipmode = case.get('mode') == 'zip'
   objs, seen_code = [], set()
   for fn, label in _real_functions(mod, path):
     if fn.__code__.co_name in _PRELUDE_SKIP:
       continue
+    if id(fn) in skip_ids:
+      continue  # left in the module's namespace by an earlier version of the file (importlib.reload)
     # one object per code object (all wrappers made by one decorator share their code)
     if id(fn.__code__) not in seen_code:
       seen_code.add(id(fn.__code__))
@@ -1615,6 +1975,12 @@ def _run_loaded(case, ref, mod, other, path, fails, stats, info):
   for fn, label in objs:
     if zipmode:
       linecache.cache.pop(path, None)  # every object is looked up as if it were the first
+    elif linecache_entry is not None:
+      # ... the first after the rewrite and reload: the lines cached for the previous version are back
+      if linecache_entry[0] is None:
+        linecache.cache.pop(path, None)
+      else:
+        linecache.cache[path] = linecache_entry[0]
     fl = []
     islam = fn.__code__.co_name == '<lambda>'
     if islam:
@@ -1628,7 +1994,7 @@ def _run_loaded(case, ref, mod, other, path, fails, stats, info):
     feats, key = r
     rec = {'kind': 'lambda' if islam else 'def', 'feats': sorted(feats), 'key': key, 'label': label,
            'route': 'code' if label == '<code>' else 'real', 'wrapped': getattr(fn, '__wrapped__', None) is not None,
-           'xwrap': label.endswith('<xwrap>'), 'failed': bool(fl),
+           'xwrap': label.endswith('<xwrap>'), 'failed': bool(fl), 'reloaded': linecache_entry is not None,
            'span': [ref.first_line(ref.defs[fn.__code__.co_name][0]), ref.defs[fn.__code__.co_name][0].end_lineno] if not islam else None}
     stats.append(rec)
     fails.extend(fl)
@@ -1649,9 +2015,20 @@ def shard(ctx, acc):
 
   def body(m):
     case = {'src': m['src'], 'mode': m['mode'], 'xwrap': m['xwrap'], 'lwrap': m['lwrap'], 'lpick': m['lpick']}
+    if m.get('history'):
+      case['history'] = m['history']
     fails, stats, info = run_case(case)
     acc.count('modules')
     acc.count('module_mode=' + m['mode'])
+    if m.get('history'):
+      h, hi = m['history'], info.get('history', {})
+      acc.count('module_history')
+      acc.count('module_history:how=' + h['how'])
+      acc.count('module_history:stamp=' + h['stamp'] + ('+size' if hi.get('size_differs_too') else ''))
+      acc.count('module_history:versions=%d' % (len(h['prev']) + 1))
+      acc.count('module_history:resolved_before_rewrite=' + '+'.join(hi.get('touch', [])))
+      if hi.get('stale_lines_cached'):
+        acc.count('module_history:stale_lines_cached_when_rechecked')
     if m['lwrap']:
       acc.count('module_lambda_decoration=' + m['lwrap'])
     for k, v in m['meta'].items():
@@ -1666,6 +2043,12 @@ def shard(ctx, acc):
         acc.count('oracle_could_not_identify_object:' + rec['kind'])
         continue
       feats = rec['feats']
+      if rec.get('old_version'):
+        feats = feats + ['version_before_rewrite']
+      elif rec.get('reloaded'):
+        feats = feats + ['after_rewrite_and_' + m['history']['how']]
+        if info.get('history', {}).get('stale_lines_cached'):
+          feats = feats + ['after_rewrite:stale_lines_cached']
       if rec['kind'] == 'def':
         nt = sum(1 for f in _NT_FEATS if f in feats) >= 2
         cls = ['def'] + ['def:' + f for f in feats] + ['def:route=' + rec['route']]
@@ -1723,6 +2106,35 @@ def shrink(case, bucket, deadline):
     if not changed or chunk > 1:
       chunk //= 2
   out = dict(case, src='\n'.join(lines))
+  if out.get('history') and time.time() < deadline:
+    c2 = dict(out)
+    del c2['history']
+    if any(f['bucket'] == bucket for f in replay(c2)):
+      out = c2
+    else:
+      h = out['history']
+      for j in range(len(h['prev']) - 1, -1, -1):
+        # fewer versions, then fewer lines in the remaining earlier versions
+        if len(h['prev']) > 1:
+          h2 = dict(h, prev=h['prev'][:j] + h['prev'][j + 1:])
+          if any(f['bucket'] == bucket for f in replay(dict(out, history=h2))):
+            h = h2
+            out = dict(out, history=h)
+            continue
+        pl = h['prev'][j]['src'].split('\n')
+        k = 0
+        while k < len(pl) and time.time() < deadline:
+          cand = pl[:k] + pl[k + 1:]
+          h2 = dict(h, prev=h['prev'][:j] + [dict(h['prev'][j], src='\n'.join(cand))] + h['prev'][j + 1:])
+          try:
+            ok = bool(cand) and any(f['bucket'] == bucket for f in replay(dict(out, history=h2)))
+          except Exception:  # pylint:disable=broad-except
+            ok = False
+          if ok:
+            pl, h = cand, h2
+            out = dict(out, history=h)
+          else:
+            k += 1
   if case.get('xwrap') and time.time() < deadline:
     c2 = dict(out, xwrap=False)
     if any(f['bucket'] == bucket for f in replay(c2)):
